@@ -308,7 +308,13 @@ func (c *c03) runAlt(cs *Case, a *altEnv, forced []simrt.Decision) (Result, []si
 	// history: other projects processed earlier in this process, under the same environment
 	for i := range a.History {
 		c.st.Exec++
+		if i > 0 {
+			simrt.KeepPoolsOnce() // what the earlier projects left in the pools is part of the history
+		}
 		execute(&a.History[i], cs.Opts, a.Env, nil, cs.Seed+uint64(i)+100, nil)
+	}
+	if len(a.History) > 0 {
+		simrt.KeepPoolsOnce()
 	}
 	if len(a.Companions) == 0 {
 		c.st.Exec++
